@@ -163,6 +163,10 @@ class BeltStore(Store):
 
         """
         # Check if there's enough space to reserve
+        if self.reservations_put:
+            # an admission is already granted and not used yet: the spacing of the next item can only
+            # be judged against that item once it is on the belt
+            return
         if self.items:
             if len(self.reservations_put) + len(self.items) +len(self.ready_items) < self.capacity:
                 if not self.noaccumulation_mode_on or (self.noaccumulation_mode_on and self.one_item_inserted==False):
